@@ -23,7 +23,7 @@ def run(ctx):
                        "description, corrupted) followed by a sequence S (valid, definition-less, developer-field-without-description, corrupted) x options; "
                        "non-trivial = at least two operations; distinct by case text")
     ctx.cov["checker_cmd"] = "coq/build.sh Props/C07.vo Run/RunC07.vo; coqc Props/C07.v; coqc cases_C07_*.v (vm_compute)"
-    tr = ctx.prepare(parts=["factory", "dump-consts", "crc", "decoder-reset"])
+    tr = ctx.prepare(parts=["factory", "dump-consts", "crc", "decoder-reset", "convmode"])
     ok, _ = ctx.coq(["Props/C07.vo", "Run/RunC07.vo"])
     if ok:
         ctx.props()
